@@ -454,3 +454,402 @@ Proof.
   unfold rolling_apply_default, bad_window. cbn [length Nat.eqb negb]. rewrite Bool.andb_false_r.
   unfold args_iter. rewrite combine_nil. reflexivity.
 Qed.
+
+(* =========================================================================================== *)
+(* X12: every window, INCLUDING 0 - total characterisations; the two-series entry points        *)
+(* =========================================================================================== *)
+Lemma bad_window_true_iff {T} w (xs : list T) : bad_window w xs = true <-> w = 0 /\ xs <> [].
+Proof.
+  unfold bad_window. destruct w as [|w]; destruct xs as [|x xs]; cbn; split; intros H;
+    try discriminate; try (destruct H; congruence); try reflexivity.
+  split; [reflexivity|discriminate].
+Qed.
+
+Lemma bad_window_cases {T} w (xs : list T) :
+  (bad_window w xs = true /\ w = 0 /\ xs <> []) \/ (bad_window w xs = false /\ (1 <= w \/ xs = [])).
+Proof.
+  destruct (bad_window w xs) eqn:Hb.
+  - left. split; [reflexivity|]. apply bad_window_true_iff. exact Hb.
+  - right. split; [reflexivity|]. destruct w as [|w]; [|left; lia]. right.
+    destruct xs as [|x xs]; [reflexivity|]. discriminate Hb.
+Qed.
+
+Section Total.
+  Context {T St O : Type}.
+
+  Lemma empty_idx_to w (f : St -> option nat * nat * T -> St * O) s0 : rolling_apply_idx_to w f s0 [] = Done [].
+  Proof.
+    unfold rolling_apply_idx_to, bad_window. cbn [length Nat.eqb negb]. rewrite Bool.andb_false_r.
+    unfold calls_to_idx. cbn [length]. rewrite Nat.min_0_r. reflexivity.
+  Qed.
+  Lemma empty_idx_default w (f : St -> option nat * nat * T -> St * O) s0 :
+    rolling_apply_idx_default w f s0 [] = Done [].
+  Proof.
+    unfold rolling_apply_idx_default, bad_window. cbn [length Nat.eqb negb]. rewrite Bool.andb_false_r.
+    reflexivity.
+  Qed.
+  Lemma empty_custom_to w (f : St -> list T -> St * O) s0 : rolling_custom_to w f s0 [] = Done [].
+  Proof.
+    unfold rolling_custom_to, bad_window. cbn [length Nat.eqb negb]. rewrite Bool.andb_false_r.
+    unfold slices_to. rewrite Nat.min_0_r. reflexivity.
+  Qed.
+
+  (* remove/add form *)
+  Lemma rolling_apply_default_total w (f : St -> option T * T -> St * O) s0 xs :
+    rolling_apply_default w f s0 xs =
+    if bad_window w xs then Panicked AssertFail
+    else Done (run f s0 (mapi (fun i v => (removed w xs i, v)) xs)).
+  Proof.
+    destruct (bad_window_cases w xs) as [(Hb & _)|(Hb & [Hw| ->])]; rewrite Hb.
+    - unfold rolling_apply_default. rewrite Hb. reflexivity.
+    - apply rolling_apply_default_eq; exact Hw.
+    - apply empty_default.
+  Qed.
+
+  Lemma rolling_apply_to_total w (f : St -> option T * T -> St * O) s0 xs :
+    rolling_apply_to w f s0 xs =
+    if bad_window w xs then Panicked AssertFail else Done (run f s0 (args_to w xs)).
+  Proof.
+    destruct (bad_window_cases w xs) as [(Hb & _)|(Hb & [Hw| ->])]; rewrite Hb.
+    - unfold rolling_apply_to. rewrite Hb. reflexivity.
+    - apply rolling_apply_to_eq; exact Hw.
+    - apply empty_to.
+  Qed.
+
+  (* window-index form *)
+  Lemma rolling_apply_idx_default_total w (f : St -> option nat * nat * T -> St * O) s0 xs :
+    rolling_apply_idx_default w f s0 xs =
+    if bad_window w xs then Panicked AssertFail
+    else Done (run f s0 (mapi (fun i v => (start_of w i, i, v)) xs)).
+  Proof.
+    destruct (bad_window_cases w xs) as [(Hb & _)|(Hb & [Hw| ->])]; rewrite Hb.
+    - unfold rolling_apply_idx_default. rewrite Hb. reflexivity.
+    - apply rolling_apply_idx_default_eq; exact Hw.
+    - apply empty_idx_default.
+  Qed.
+
+  Lemma rolling_apply_idx_to_total w (f : St -> option nat * nat * T -> St * O) s0 xs :
+    rolling_apply_idx_to w f s0 xs =
+    if bad_window w xs then Panicked AssertFail else Done (run f s0 (args_to_idx w xs)).
+  Proof.
+    destruct (bad_window_cases w xs) as [(Hb & _)|(Hb & [Hw| ->])]; rewrite Hb.
+    - unfold rolling_apply_idx_to. rewrite Hb. reflexivity.
+    - apply rolling_apply_idx_to_eq; exact Hw.
+    - apply empty_idx_to.
+  Qed.
+
+  (* window-slice form: the returned path computes `window - 1` first (underflow for window 0, also on
+     an empty series); the caller-buffer path asserts *)
+  Lemma rolling_custom_default_total w (f : St -> list T -> St * O) s0 xs :
+    rolling_custom_default w f s0 xs =
+    if w =? 0 then Panicked Underflow else Done (run f s0 (windows w xs)).
+  Proof.
+    destruct w as [|w]; [reflexivity|]. cbn [Nat.eqb]. apply rolling_custom_default_eq. lia.
+  Qed.
+
+  Lemma rolling_custom_to_total w (f : St -> list T -> St * O) s0 xs :
+    rolling_custom_to w f s0 xs =
+    if bad_window w xs then Panicked AssertFail else Done (run f s0 (windows w xs)).
+  Proof.
+    destruct (bad_window_cases w xs) as [(Hb & _)|(Hb & [Hw| ->])]; rewrite Hb.
+    - unfold rolling_custom_to. rewrite Hb. reflexivity.
+    - apply rolling_custom_to_eq; exact Hw.
+    - apply empty_custom_to.
+  Qed.
+End Total.
+
+(* the two bodies agree for add-emit-remove callbacks at EVERY window (0: the same assertion, or the
+   same empty result) *)
+Lemma rolling_apply_bodies_agree_total {T St O} (pre : St -> T -> St) (emit : St -> O)
+      (post : St -> option T -> St) w s0 (xs : list T) :
+  rolling_apply_to w (aer pre emit post) s0 xs = rolling_apply_default w (aer pre emit post) s0 xs.
+Proof.
+  destruct (bad_window_cases w xs) as [(Hb & _)|(Hb & [Hw| ->])].
+  - unfold rolling_apply_to, rolling_apply_default. rewrite Hb. reflexivity.
+  - apply rolling_apply_bodies_agree; exact Hw.
+  - rewrite empty_to, empty_default. reflexivity.
+Qed.
+
+Lemma rolling_apply_idx_bodies_agree_total {T St O} (pre : St -> nat -> T -> St) (emit : St -> O)
+      (post : St -> option nat -> St) w s0 (xs : list T) :
+  w <= length xs ->
+  rolling_apply_idx_to w (aer_idx pre emit post) s0 xs
+  = rolling_apply_idx_default w (aer_idx pre emit post) s0 xs.
+Proof.
+  intros Hle. destruct (bad_window_cases w xs) as [(Hb & _)|(Hb & [Hw| ->])].
+  - unfold rolling_apply_idx_to, rolling_apply_idx_default. rewrite Hb. reflexivity.
+  - apply rolling_apply_idx_bodies_agree_le. lia.
+  - rewrite empty_idx_to, empty_idx_default. reflexivity.
+Qed.
+
+Section TwoLemmas.
+  Context {T1 T2 St O : Type}.
+
+  (* the window check of the returned path looks at the FIRST series only; once it passes, the same
+     check on the zipped series passes too *)
+  Lemma bad_window_combine w (xs : list T1) (ys : list T2) :
+    bad_window w xs = false -> bad_window w (combine xs ys) = false.
+  Proof.
+    unfold bad_window. destruct w as [|w]; [|reflexivity]. destruct xs as [|x xs]; [reflexivity|discriminate].
+  Qed.
+
+  Lemma bad_window_combine_le w (xs : list T1) (ys : list T2) :
+    length xs <= length ys -> bad_window w (combine xs ys) = bad_window w xs.
+  Proof. intros H. unfold bad_window. rewrite combine_length, Nat.min_l by exact H. reflexivity. Qed.
+
+  (* ... and they differ exactly in the corner the model used to get wrong *)
+  Lemma bad_window_combine_differs w (xs : list T1) (ys : list T2) :
+    bad_window w (combine xs ys) <> bad_window w xs <-> w = 0 /\ xs <> [] /\ ys = [].
+  Proof.
+    unfold bad_window. destruct w as [|w]; [|cbn; split; [congruence|intros (H & _); discriminate]].
+    destruct xs as [|x xs]; [cbn; split; [congruence|intros (_ & H & _); congruence]|].
+    destruct ys as [|y ys]; cbn; split; try congruence.
+    - intros _. repeat split; discriminate.
+    - intros (_ & _ & H). discriminate.
+  Qed.
+
+  (* the start iterator of the code counts to len SELF; the zip cuts it at the shorter series *)
+  Lemma args_iter_idx2_eq w (xs : list T1) (ys : list T2) :
+    args_iter_idx2 w xs ys = args_iter_idx w (combine xs ys).
+  Proof.
+    unfold args_iter_idx2, args_iter_idx. f_equal. f_equal.
+    assert (Hlen : length (combine xs ys) <= length xs) by (rewrite combine_length; lia).
+    remember (combine xs ys) as zs eqn:Hz. clear Hz.
+    apply nth_error_ext. intros i. rewrite !nth_error_combine.
+    destruct (nth_error zs i) as [p|] eqn:E; [|reflexivity].
+    assert (Hi : i < length zs) by (apply nth_error_Some; congruence).
+    assert (Hi2 : i < length xs) by lia.
+    rewrite !nth_error_app, !repeat_length, !nth_error_repeat, !nth_error_map, !nth_error_seq.
+    destruct (i <? w - 1); [reflexivity|].
+    replace (i - (w - 1) <? length xs) with true by (symmetry; apply Nat.ltb_lt; lia).
+    replace (i - (w - 1) <? length zs) with true by (symmetry; apply Nat.ltb_lt; lia).
+    reflexivity.
+  Qed.
+
+  (* past the window check the returned paths are the one-series iterator bodies over the zipped series *)
+  Lemma rolling2_apply_default_unfold w (f : St -> option (T1 * T2) * (T1 * T2) -> St * O) s0 xs ys :
+    rolling2_apply_default w f s0 xs ys =
+    if bad_window w xs then Panicked AssertFail else rolling_apply_default w f s0 (combine xs ys).
+  Proof.
+    unfold rolling2_apply_default, rolling_apply_default. destruct (bad_window w xs) eqn:Hb; [reflexivity|].
+    rewrite bad_window_combine by exact Hb. reflexivity.
+  Qed.
+
+  Lemma rolling2_apply_idx_default_unfold w (f : St -> option nat * nat * (T1 * T2) -> St * O) s0 xs ys :
+    rolling2_apply_idx_default w f s0 xs ys =
+    if bad_window w xs then Panicked AssertFail else rolling_apply_idx_default w f s0 (combine xs ys).
+  Proof.
+    unfold rolling2_apply_idx_default, rolling_apply_idx_default. destruct (bad_window w xs) eqn:Hb; [reflexivity|].
+    rewrite bad_window_combine by exact Hb. rewrite args_iter_idx2_eq. reflexivity.
+  Qed.
+
+  Lemma rolling2_apply_default_pos w (f : St -> option (T1 * T2) * (T1 * T2) -> St * O) s0 xs ys :
+    1 <= w -> rolling2_apply_default w f s0 xs ys = rolling_apply_default w f s0 (combine xs ys).
+  Proof. intros Hw. rewrite rolling2_apply_default_unfold, bad_window_false by exact Hw. reflexivity. Qed.
+
+  Lemma rolling2_apply_idx_default_pos w (f : St -> option nat * nat * (T1 * T2) -> St * O) s0 xs ys :
+    1 <= w -> rolling2_apply_idx_default w f s0 xs ys = rolling_apply_idx_default w f s0 (combine xs ys).
+  Proof. intros Hw. rewrite rolling2_apply_idx_default_unfold, bad_window_false by exact Hw. reflexivity. Qed.
+
+  (* ... and also whenever the second series is not shorter (the two window checks then coincide) *)
+  Lemma rolling2_apply_default_le w (f : St -> option (T1 * T2) * (T1 * T2) -> St * O) s0 xs ys :
+    length xs <= length ys -> rolling2_apply_default w f s0 xs ys = rolling_apply_default w f s0 (combine xs ys).
+  Proof.
+    intros Hle. rewrite rolling2_apply_default_unfold. destruct (bad_window w xs) eqn:Hb; [|reflexivity].
+    unfold rolling_apply_default. rewrite bad_window_combine_le, Hb by exact Hle. reflexivity.
+  Qed.
+
+  Lemma rolling2_apply_idx_default_le w (f : St -> option nat * nat * (T1 * T2) -> St * O) s0 xs ys :
+    length xs <= length ys ->
+    rolling2_apply_idx_default w f s0 xs ys = rolling_apply_idx_default w f s0 (combine xs ys).
+  Proof.
+    intros Hle. rewrite rolling2_apply_idx_default_unfold. destruct (bad_window w xs) eqn:Hb; [|reflexivity].
+    unfold rolling_apply_idx_default. rewrite bad_window_combine_le, Hb by exact Hle. reflexivity.
+  Qed.
+
+  (* window 0 on a non-empty first series: the assertion, WHATEVER the second series (also empty) *)
+  Lemma rolling2_apply_default_window0 (f : St -> option (T1 * T2) * (T1 * T2) -> St * O) s0 xs ys :
+    xs <> [] -> rolling2_apply_default 0 f s0 xs ys = Panicked AssertFail.
+  Proof.
+    intros H. unfold rolling2_apply_default.
+    replace (bad_window 0 xs) with true by (symmetry; apply bad_window_true_iff; auto). reflexivity.
+  Qed.
+  Lemma rolling2_apply_idx_default_window0 (f : St -> option nat * nat * (T1 * T2) -> St * O) s0 xs ys :
+    xs <> [] -> rolling2_apply_idx_default 0 f s0 xs ys = Panicked AssertFail.
+  Proof.
+    intros H. unfold rolling2_apply_idx_default.
+    replace (bad_window 0 xs) with true by (symmetry; apply bad_window_true_iff; auto). reflexivity.
+  Qed.
+
+  (* ---- total characterisations, every window, every pair of lengths ---- *)
+  Lemma rolling2_apply_default_total w (f : St -> option (T1 * T2) * (T1 * T2) -> St * O) s0 xs ys :
+    rolling2_apply_default w f s0 xs ys =
+    if bad_window w xs then Panicked AssertFail
+    else Done (run f s0 (mapi (fun i v => (removed w (combine xs ys) i, v)) (combine xs ys))).
+  Proof.
+    rewrite rolling2_apply_default_unfold. destruct (bad_window w xs) eqn:Hb; [reflexivity|].
+    rewrite rolling_apply_default_total, bad_window_combine by exact Hb. reflexivity.
+  Qed.
+
+  Lemma rolling2_apply_to_total w (f : St -> option (T1 * T2) * (T1 * T2) -> St * O) s0 xs ys :
+    rolling2_apply_to w f s0 xs ys =
+    if length ys <? length xs then Panicked AssertFail
+    else if bad_window w xs then Panicked AssertFail
+    else Done (run f s0 (args_to w (combine xs ys))).
+  Proof.
+    unfold rolling2_apply_to. destruct (length ys <? length xs) eqn:E; [reflexivity|].
+    apply Nat.ltb_ge in E. rewrite rolling_apply_to_total, bad_window_combine_le by exact E. reflexivity.
+  Qed.
+
+  Lemma rolling2_apply_idx_default_total w (f : St -> option nat * nat * (T1 * T2) -> St * O) s0 xs ys :
+    rolling2_apply_idx_default w f s0 xs ys =
+    if bad_window w xs then Panicked AssertFail
+    else Done (run f s0 (mapi (fun i v => (start_of w i, i, v)) (combine xs ys))).
+  Proof.
+    rewrite rolling2_apply_idx_default_unfold. destruct (bad_window w xs) eqn:Hb; [reflexivity|].
+    rewrite rolling_apply_idx_default_total, bad_window_combine by exact Hb. reflexivity.
+  Qed.
+
+  Lemma rolling2_apply_idx_to_total w (f : St -> option nat * nat * (T1 * T2) -> St * O) s0 xs ys :
+    rolling2_apply_idx_to w f s0 xs ys =
+    if length ys <? length xs then Panicked AssertFail
+    else if bad_window w xs then Panicked AssertFail
+    else Done (run f s0 (args_to_idx w (combine xs ys))).
+  Proof.
+    unfold rolling2_apply_idx_to. destruct (length ys <? length xs) eqn:E; [reflexivity|].
+    apply Nat.ltb_ge in E. rewrite rolling_apply_idx_to_total, bad_window_combine_le by exact E. reflexivity.
+  Qed.
+
+  Lemma rolling2_custom_default_total w (f : St -> list T1 * list T2 -> St * O) s0 xs ys :
+    rolling2_custom_default w f s0 xs ys =
+    if length ys <? length xs then Panicked AssertFail
+    else if w =? 0 then Panicked Underflow
+    else Done (run f s0 (map (fun i => (win w i xs, win w i ys)) (seq 0 (length xs)))).
+  Proof.
+    unfold rolling2_custom_default. destruct (length ys <? length xs); [reflexivity|].
+    destruct w as [|w]; [reflexivity|]. cbn [Nat.eqb].
+    rewrite slices_iter_spec by lia. rewrite map_map. do 2 f_equal.
+    all: try (apply map_ext; intros i; rewrite !win_seg; reflexivity).
+  Qed.
+
+  (* ---- the first failing check, in the order of the code; a run that passes them all returns a fully
+          initialised output (never `Uninit`) of the stated length ---- *)
+  Lemma rolling2_apply_default_by_check w (f : St -> option (T1 * T2) * (T1 * T2) -> St * O) s0 xs ys :
+    match check2_default w xs ys with
+    | Some g => rolling2_apply_default w f s0 xs ys = Panicked (guard_kind g)
+    | None => exists l, rolling2_apply_default w f s0 xs ys = Done l
+                        /\ length l = Nat.min (length xs) (length ys)
+    end.
+  Proof.
+    rewrite rolling2_apply_default_total. unfold check2_default. destruct (bad_window w xs); [reflexivity|].
+    eexists. split; [reflexivity|]. rewrite run_length, mapi_length, combine_length. reflexivity.
+  Qed.
+
+  Lemma rolling2_apply_idx_default_by_check w (f : St -> option nat * nat * (T1 * T2) -> St * O) s0 xs ys :
+    match check2_default w xs ys with
+    | Some g => rolling2_apply_idx_default w f s0 xs ys = Panicked (guard_kind g)
+    | None => exists l, rolling2_apply_idx_default w f s0 xs ys = Done l
+                        /\ length l = Nat.min (length xs) (length ys)
+    end.
+  Proof.
+    rewrite rolling2_apply_idx_default_total. unfold check2_default. destruct (bad_window w xs); [reflexivity|].
+    eexists. split; [reflexivity|]. rewrite run_length, mapi_length, combine_length. reflexivity.
+  Qed.
+
+  Lemma rolling2_apply_to_by_check w (f : St -> option (T1 * T2) * (T1 * T2) -> St * O) s0 xs ys :
+    match check2_to w xs ys with
+    | Some g => rolling2_apply_to w f s0 xs ys = Panicked (guard_kind g)
+    | None => exists l, rolling2_apply_to w f s0 xs ys = Done l /\ length l = length xs
+    end.
+  Proof.
+    rewrite rolling2_apply_to_total. unfold check2_to. destruct (length ys <? length xs) eqn:E; [reflexivity|].
+    destruct (bad_window w xs); [reflexivity|]. apply Nat.ltb_ge in E.
+    eexists. split; [reflexivity|]. unfold args_to. rewrite run_length, mapi_length, combine_length. lia.
+  Qed.
+
+  Lemma rolling2_apply_idx_to_by_check w (f : St -> option nat * nat * (T1 * T2) -> St * O) s0 xs ys :
+    match check2_to w xs ys with
+    | Some g => rolling2_apply_idx_to w f s0 xs ys = Panicked (guard_kind g)
+    | None => exists l, rolling2_apply_idx_to w f s0 xs ys = Done l /\ length l = length xs
+    end.
+  Proof.
+    rewrite rolling2_apply_idx_to_total. unfold check2_to. destruct (length ys <? length xs) eqn:E; [reflexivity|].
+    destruct (bad_window w xs); [reflexivity|]. apply Nat.ltb_ge in E.
+    eexists. split; [reflexivity|]. unfold args_to_idx. rewrite run_length, mapi_length, combine_length. lia.
+  Qed.
+
+  Lemma rolling2_custom_default_by_check w (f : St -> list T1 * list T2 -> St * O) s0 xs ys :
+    match check2_custom w xs ys with
+    | Some g => rolling2_custom_default w f s0 xs ys = Panicked (guard_kind g)
+    | None => exists l, rolling2_custom_default w f s0 xs ys = Done l /\ length l = length xs
+    end.
+  Proof.
+    rewrite rolling2_custom_default_total. unfold check2_custom. destruct (length ys <? length xs); [reflexivity|].
+    destruct (w =? 0); [reflexivity|].
+    eexists. split; [reflexivity|]. rewrite run_length, map_length, seq_length. reflexivity.
+  Qed.
+
+  (* the two checks that can stop a two-series entry point, spelled out *)
+  Lemma check2_default_spec w (xs : list T1) (ys : list T2) :
+    (check2_default w xs ys = Some GWindow <-> w = 0 /\ xs <> []) /\
+    (check2_default w xs ys = None <-> 1 <= w \/ xs = []).
+  Proof.
+    unfold check2_default. destruct (bad_window_cases w xs) as [(Hb & H0 & Hx)|(Hb & H)]; rewrite Hb.
+    - split; split; try tauto; try discriminate. intros [H|H]; [lia|contradiction].
+    - split; split; try tauto; try discriminate. intros (H0 & Hx). destruct H; [lia|contradiction].
+  Qed.
+
+  Lemma check2_to_spec w (xs : list T1) (ys : list T2) :
+    (check2_to w xs ys = Some GShorter <-> length ys < length xs) /\
+    (check2_to w xs ys = Some GWindow <-> length xs <= length ys /\ w = 0 /\ xs <> []) /\
+    (check2_to w xs ys = None <-> length xs <= length ys /\ (1 <= w \/ xs = [])).
+  Proof.
+    unfold check2_to. destruct (length ys <? length xs) eqn:E.
+    - apply Nat.ltb_lt in E. repeat split; try tauto; try discriminate; intros; lia.
+    - apply Nat.ltb_ge in E.
+      destruct (bad_window_cases w xs) as [(Hb & H0 & Hx)|(Hb & H)]; rewrite Hb.
+      + repeat split; try tauto; try discriminate; try lia. intros (_ & [H|H]); [lia|contradiction].
+      + repeat split; try tauto; try discriminate; try lia. intros (_ & H0 & Hx). destruct H; [lia|contradiction].
+  Qed.
+End TwoLemmas.
+
+(* two series, add-emit-remove callback: the bodies agree at every window whenever the second series is
+   not shorter (when it is, the index body asserts and the iterator body stops early) *)
+Lemma rolling2_apply_bodies_agree {T1 T2 St O} (pre : St -> T1 * T2 -> St) (emit : St -> O)
+      (post : St -> option (T1 * T2) -> St) w s0 (xs : list T1) (ys : list T2) :
+  length xs <= length ys ->
+  rolling2_apply_to w (aer pre emit post) s0 xs ys = rolling2_apply_default w (aer pre emit post) s0 xs ys.
+Proof.
+  intros Hle. unfold rolling2_apply_to.
+  replace (length ys <? length xs) with false by (symmetry; apply Nat.ltb_ge; exact Hle).
+  rewrite rolling2_apply_default_unfold. destruct (bad_window w xs) eqn:Hb.
+  - unfold rolling_apply_to. rewrite bad_window_combine_le, Hb by exact Hle. reflexivity.
+  - apply rolling_apply_bodies_agree_total.
+Qed.
+
+Lemma rolling2_apply_idx_bodies_agree {T1 T2 St O} (pre : St -> nat -> T1 * T2 -> St) (emit : St -> O)
+      (post : St -> option nat -> St) w s0 (xs : list T1) (ys : list T2) :
+  w <= length xs <= length ys ->
+  rolling2_apply_idx_to w (aer_idx pre emit post) s0 xs ys
+  = rolling2_apply_idx_default w (aer_idx pre emit post) s0 xs ys.
+Proof.
+  intros [Hw Hle]. unfold rolling2_apply_idx_to.
+  replace (length ys <? length xs) with false by (symmetry; apply Nat.ltb_ge; exact Hle).
+  rewrite rolling2_apply_idx_default_unfold. destruct (bad_window w xs) eqn:Hb.
+  - unfold rolling_apply_idx_to. rewrite bad_window_combine_le, Hb by exact Hle. reflexivity.
+  - apply rolling_apply_idx_bodies_agree_total. rewrite combine_length. lia.
+Qed.
+
+(* a shorter second series: the index body refuses, the iterator body yields one result per zipped pair *)
+Lemma rolling2_shorter_second {T1 T2 St O} w (f : St -> option (T1 * T2) * (T1 * T2) -> St * O) s0
+      (xs : list T1) (ys : list T2) :
+  length ys < length xs -> 1 <= w ->
+  rolling2_apply_to w f s0 xs ys = Panicked AssertFail /\
+  exists l, rolling2_apply_default w f s0 xs ys = Done l /\ length l = length ys.
+Proof.
+  intros Hlt Hw. split.
+  - unfold rolling2_apply_to. replace (length ys <? length xs) with true by (symmetry; apply Nat.ltb_lt; exact Hlt).
+    reflexivity.
+  - rewrite rolling2_apply_default_total, bad_window_false by exact Hw.
+    eexists. split; [reflexivity|]. rewrite run_length, mapi_length, combine_length. lia.
+Qed.
